@@ -196,7 +196,7 @@ _W1 = _hello(1, 7, 40, ["never"])
 # GATE instance: wired AND wireless, every attribute tuple and every name length symbolic - the writers abstracted by the presence /
 # length part of their own proved contracts (see h_hello.c); decides which writers answerHello calls under which platform answers.
 H("hello_gate", src="h_hello.c", fn="h_answer_hello", props=["C04", "C02", "C03", "C01", "C18", "C19", "C17"], enforce=["answerHello"], unwind=8,
-  unwindset={"v_build_state.0": 50}, defines=["V_HELLO_GATE=1", "V_TXCAP=256", "V_LIST_MAX=3"], must_reach=["end", "tx", "wireless", "wired"], shards=6, mem_est_gb=6,
+  unwindset={"v_build_state.0": 50}, defines=["V_HELLO_GATE=1", "V_TXCAP=256", "V_LIST_MAX=3"], must_reach=["end", "tx", "wireless", "wired"], shards=3, mem_est_gb=14, timeout=1500,
   bounded="property writers abstracted to (presence, legal length, header bytes) as their contracts state; transmit buffer modelled with a constant capacity of 256 bytes")
 
 # ---------------------------------------------------------------- platform layer / embedded entry point / closure
